@@ -1,6 +1,7 @@
 import WellenModel.Model.Store
 import WellenModel.Proofs.Stream
 import WellenModel.Proofs.Canon
+import WellenModel.Proofs.EntryRoundtrip
 /-!
 Block level: the offset table `finish_block` writes lets `Block::get_offset_and_length` cut every signal's bytes back
 out of the block data, for every number of signals and every mix of signals with and without data.
@@ -501,5 +502,195 @@ theorem vcd_block_roundtrip (c : Codec) (signals : Array SigEnc) (i : Nat) (s : 
   · have := single_block_load c signals i s bits tt t0 cs hs hb hd' hcsne hcs (by rw [← hd']; exact hlen)
     simp only at this ⊢
     rw [this, replayFixed_abs]
+
+end Wellen.Store
+
+namespace Wellen.Store
+open Wellen.Bits Wellen.Spec
+
+theorem kindOf_fits (nums : List Nat) (h9 : ∀ v ∈ nums, v < 9) : ∀ v ∈ nums, v < 2 ^ (kindOf nums).bits := by
+  intro v hv
+  unfold kindOf
+  split
+  · rename_i h; have := List.all_eq_true.mp h v hv; simp at this; simp [States.bits]; omega
+  · split
+    · rename_i _ h; have := List.all_eq_true.mp h v hv; simp at this; simp [States.bits]; omega
+    · have := h9 v hv; simp [States.bits]; omega
+
+theorem charsToNums_append (a b : List Nat) : ∀ na nb, charsToNums a = some na → charsToNums b = some nb →
+    charsToNums (a ++ b) = some (na ++ nb) := by
+  induction a with
+  | nil => intro na nb ha hb; simp [charsToNums] at ha; subst ha; simpa using hb
+  | cons c r ih =>
+    intro na nb ha hb
+    simp only [charsToNums] at ha
+    cases hc : bitCharToNum c with
+    | none => simp [hc] at ha
+    | some v =>
+      cases hr : charsToNums r with
+      | none => simp [hc, hr] at ha
+      | some vs =>
+        simp [hc, hr] at ha; subst ha
+        simp [charsToNums, hc, ih vs nb hr hb]
+
+theorem charsToNums_replicate (k c v : Nat) (h : bitCharToNum c = some v) :
+    charsToNums (List.replicate k c) = some (List.replicate k v) := by
+  induction k with
+  | zero => rfl
+  | succ k ih => simp [List.replicate_succ, charsToNums, h, ih]
+
+/-- the symbols of a left-extended token are those of the token plus, possibly, zeros -/
+theorem expand_syms (vb : List Nat) (len : Nat) (chars n0 nums : List Nat)
+    (he : expandSpecial vb len = some chars) (h0 : charsToNums vb = some n0) (hn : charsToNums chars = some nums) :
+    ∀ v ∈ nums, v ∈ n0 ∨ v = 0 := by
+  unfold expandSpecial at he
+  split at he
+  · cases he
+  · cases vb with
+    | nil => simp at he
+    | cons c r =>
+      simp only at he
+      have hcn : ∃ v0 vs, bitCharToNum c = some v0 ∧ n0 = v0 :: vs := by
+        simp only [charsToNums] at h0
+        cases hc : bitCharToNum c with
+        | none => simp [hc] at h0
+        | some v0 =>
+          cases hr : charsToNums r with
+          | none => simp [hc, hr] at h0
+          | some vs => simp [hc, hr] at h0; exact ⟨v0, vs, rfl, h0.symm⟩
+      obtain ⟨v0, vs, hc0, hn0⟩ := hcn
+      split at he
+      · cases he
+        have h48 : bitCharToNum 48 = some 0 := by decide
+        have := charsToNums_append _ _ _ _ (charsToNums_replicate (len - (c :: r).length) 48 0 h48) h0
+        rw [this] at hn; cases hn
+        intro v hv
+        rcases List.mem_append.mp hv with h | h
+        · right; exact (List.mem_replicate.mp h).2
+        · left; exact h
+      · split at he
+        · cases he
+          have := charsToNums_append _ _ _ _ (charsToNums_replicate (len - (c :: r).length) c v0 hc0) h0
+          rw [this] at hn; cases hn
+          intro v hv
+          rcases List.mem_append.mp hv with h | h
+          · left; rw [(List.mem_replicate.mp h).2, hn0]; simp
+          · left; exact h
+        · cases he
+
+/-- the symbols written for a VCD vector token fit the kind recorded in its chunk header -/
+theorem addVcd_chunk_fits (ti : Nat) (value : List Nat) (realLe : Option (List Nat)) (s s' : SigEnc) (bits : Nat)
+    (ht : s.tpe = .bitvec bits) (hb : bits ≠ 1) (h : addVcd ti value realLe s = some s') :
+    ∃ st nums, nums.length = bits ∧ (∀ v ∈ nums, v < 2 ^ st.bits) ∧
+      s'.chunks = encChange (ti - s.prevTimeIdx) st (writeNState st nums none) :: s.chunks ∧
+      s'.prevTimeIdx = ti ∧ s'.tpe = s.tpe ∧ s'.maxStates = States.join s.maxStates st := by
+  unfold addVcd at h
+  cases value with
+  | nil => simp at h
+  | cons c0 rest =>
+    simp only [ht, hb, ↓reduceIte] at h
+    generalize hvb : (if (if c0 = 98 ∨ c0 = 66 then rest else c0 :: rest).length ≤ 2 then (if c0 = 98 ∨ c0 = 66 then rest else c0 :: rest)
+        else if List.take 2 (if c0 = 98 ∨ c0 = 66 then rest else c0 :: rest) = [48, 98] then List.drop 2 (if c0 = 98 ∨ c0 = 66 then rest else c0 :: rest)
+        else (if c0 = 98 ∨ c0 = 66 then rest else c0 :: rest)) = vb at h
+    cases hst : checkStates vb with
+    | none => simp [hst] at h
+    | some st =>
+      simp only [hst] at h
+      obtain ⟨n0, hn0, hk⟩ := checkStates_minimal vb st hst
+      cases hch : (if vb.length = bits then some vb else expandSpecial vb bits) with
+      | none => simp [hch] at h
+      | some chars =>
+        simp only [hch] at h
+        cases hn : charsToNums chars with
+        | none => simp [hn] at h
+        | some nums =>
+          simp only [hn] at h
+          cases h
+          have hlen : chars.length = bits := by
+            split at hch
+            · cases hch; assumption
+            · exact expandSpecial_length vb bits chars hch
+          have hfit0 := kindOf_fits n0 (charsToNums_lt vb n0 hn0)
+          refine ⟨st, nums, by rw [charsToNums_length chars nums hn, hlen], ?_, rfl, rfl, ht.symm, rfl⟩
+          intro v hv
+          split at hch
+          · cases hch
+            rw [hn0] at hn; cases hn
+            rw [hk]; exact hfit0 v hv
+          · rcases expand_syms vb bits chars n0 nums hch hn0 hn v hv with h1 | h1
+            · rw [hk]; exact hfit0 v h1
+            · rw [h1]; exact Nat.two_pow_pos _
+
+
+theorem join_ge_left (a b : States) : a.toNat ≤ (States.join a b).toNat := by
+  unfold States.join; split <;> omega
+theorem join_ge_right (a b : States) : b.toNat ≤ (States.join a b).toNat := by
+  unfold States.join; split <;> omega
+
+theorem foldl_join_ge (l : List States) : ∀ (a : States), a.toNat ≤ (l.foldl States.join a).toNat ∧
+    ∀ x ∈ l, x.toNat ≤ (l.foldl States.join a).toNat := by
+  induction l with
+  | nil => intro a; simp
+  | cons y r ih =>
+    intro a
+    simp only [List.foldl_cons]
+    obtain ⟨h1, h2⟩ := ih (States.join a y)
+    refine ⟨Nat.le_trans (join_ge_left a y) h1, ?_⟩
+    intro x hx
+    rcases List.mem_cons.mp hx with rfl | hx
+    · exact Nat.le_trans (join_ge_right a x) h1
+    · exact h2 x hx
+
+/-- as `vcdWrites_stream`, with the fact that every token's symbols fit the kind in its chunk header -/
+theorem vcdWrites_stream_fits (bits : Nat) (hb : bits ≠ 1) (calls : List (Nat × List Nat)) : ∀ (s0 s : SigEnc),
+    s0.tpe = .bitvec bits → vcdWrites s0 calls = some s →
+    ∃ cs : List (Nat × States × List Nat),
+      s.dataBytes = s0.dataBytes ++ encStream cs ∧
+      cs.map (·.1) = deltasFrom s0.prevTimeIdx (calls.map (·.1)) ∧
+      (∀ c ∈ cs, ∃ nums, nums.length = bits ∧ (∀ v ∈ nums, v < 2 ^ c.2.1.bits) ∧ c.2.2 = writeNState c.2.1 nums none) ∧
+      s.maxStates = (cs.map (·.2.1)).foldl States.join s0.maxStates := by
+  induction calls with
+  | nil =>
+    intro s0 s _ h
+    simp only [vcdWrites] at h; cases h
+    exact ⟨[], by simp [encStream], rfl, by simp, rfl⟩
+  | cons c r ih =>
+    intro s0 s ht h
+    simp only [vcdWrites] at h
+    cases h1 : addVcd c.1 c.2 none s0 with
+    | none => simp [h1] at h
+    | some s1 =>
+      simp only [h1] at h
+      obtain ⟨st, nums, hlen, hfit, hch, hprev, htpe, hmax⟩ := addVcd_chunk_fits c.1 c.2 none s0 s1 bits ht hb h1
+      obtain ⟨cs, hd, hdl, hpay, hm2⟩ := ih s1 s (by rw [htpe]; exact ht) h
+      refine ⟨(c.1 - s0.prevTimeIdx, st, writeNState st nums none) :: cs, ?_, ?_, ?_, ?_⟩
+      · rw [hd, dataBytes_cons s1 _ _ hch]
+        simp [SigEnc.dataBytes, encStream, List.append_assoc]
+      · simp [deltasFrom, hdl, hprev]
+      · intro x hx
+        rcases List.mem_cons.mp hx with rfl | hx
+        · exact ⟨nums, hlen, hfit, rfl⟩
+        · exact hpay x hx
+      · simp [hm2, hmax]
+
+/-- **values come back**: in the situation of `vcd_block_roundtrip` (2 ≤ bits), every entry the loader builds decodes to the
+kind and the symbols of the VCD token it was written from -/
+theorem vcd_block_values (bits : Nat) (hb2 : 2 ≤ bits) (calls : List (Nat × List Nat)) (s : SigEnc)
+    (hw : vcdWrites { tpe := .bitvec bits } calls = some s) :
+    ∃ cs : List (Nat × States × List Nat),
+      s.dataBytes = encStream cs ∧ cs.map (·.1) = deltasFrom 0 (calls.map (·.1)) ∧
+      ∀ x ∈ cs, ∃ nums d, nums.length = bits ∧ x.2.2 = writeNState x.2.1 nums none ∧
+        decodeEntry s.maxStates bits (getLenAndMeta s.maxStates bits).2 (alignEntry s.maxStates x.2.1 bits x.2.2) = some (x.2.1, d) ∧
+        toSyms x.2.1 d bits = nums := by
+  obtain ⟨cs, hd, hdl, hpay, hmax⟩ := vcdWrites_stream_fits bits (by omega) calls { tpe := .bitvec bits } s rfl hw
+  refine ⟨cs, by simpa [SigEnc.dataBytes] using hd, hdl, ?_⟩
+  intro x hx
+  obtain ⟨nums, hl, hfit, hp⟩ := hpay x hx
+  have hle : x.2.1.toNat ≤ s.maxStates.toNat := by
+    rw [hmax]
+    exact (foldl_join_ge (cs.map (·.2.1)) _).2 x.2.1 (List.mem_map.mpr ⟨x, hx, rfl⟩)
+  obtain ⟨d, hdec, hsym⟩ := entry_roundtrip s.maxStates x.2.1 nums (by omega) (by simpa [B] using hfit) hle
+  rw [hl] at hdec hsym
+  exact ⟨nums, d, hl, hp, by rw [hp]; exact hdec, hsym⟩
 
 end Wellen.Store
